@@ -20,8 +20,26 @@ from .mir import MirError
 from .terms import T, is_sym, node, var, cmp, bnot, band, bor, conj, disj, show, sort_of, arith, neg, substitute
 
 VERIF = os.path.dirname(os.path.dirname(os.path.abspath(__file__)))
-REPO = os.environ.get('VERIF_REPO', '/repo')
+REPO = os.path.abspath(os.environ.get('VERIF_REPO', '/repo'))
 BUILD = os.path.join(VERIF, '.build')
+# Development aid (seeded-change runs in parallel): with VERIF_REPO=<scratch copy of /repo> the harness crate is copied
+# to .build/scratch-<tag>/harness with its path dependency pointed at the copy, every build product gets the tag, and
+# evidence / replay files go to .build/scratch-<tag>/evidence.  The registered commands never set VERIF_REPO.
+import zlib as _zlib
+TAG = '' if REPO == '/repo' else '-%s-%08x' % (re.sub(r'\W', '_', os.path.basename(REPO)), _zlib.crc32(REPO.encode()))
+SCRATCH = os.path.join(BUILD, 'scratch' + TAG) if TAG else None
+HDIR = os.path.join(SCRATCH, 'harness') if TAG else os.path.join(VERIF, 'harness')
+EVDIR = os.path.join(SCRATCH, 'evidence') if TAG else os.path.join(VERIF, 'evidence')
+
+
+def sync_scratch_harness():
+    if not TAG:
+        return
+    os.makedirs(SCRATCH, exist_ok=True)
+    subprocess.run(['rsync', '-a', '--delete', '--exclude', 'target', os.path.join(VERIF, 'harness') + '/', HDIR + '/'], check=True)
+    ct = os.path.join(HDIR, 'Cargo.toml')
+    t = open(ct).read().replace('path = "/repo"', 'path = "%s"' % REPO)
+    open(ct, 'w').write(t)
 PI_LITS = {
     6.283185307179586: Fraction(2), 3.141592653589793: Fraction(1), 1.5707963267948966: Fraction(1, 2),
     0.7853981633974483: Fraction(1, 4), 1.0471975511965976: Fraction(1, 3), 1.0471975511965979: Fraction(1, 3),
@@ -52,8 +70,8 @@ def env_offline():
 
 def dump_mir(feature, opt=2):
     os.makedirs(BUILD, exist_ok=True)
-    out = os.path.join(BUILD, '%s-o%d.mir' % (feature, opt))
-    hdir = os.path.join(VERIF, 'harness')
+    out = os.path.join(BUILD, '%s%s-o%d.mir' % (feature, TAG, opt))
+    hdir = HDIR
     lock = os.path.join(REPO, 'Cargo.lock')
     if os.path.exists(lock):
         subprocess.run(['cp', lock, os.path.join(hdir, 'Cargo.lock')])
@@ -64,7 +82,7 @@ def dump_mir(feature, opt=2):
     t0 = time.time()
     with open(out, 'w') as fo, open(out + '.err', 'w') as fe:
         r = subprocess.run(['cargo', '+nightly', 'rustc', '--offline', '--lib', '--features', feature,
-                            '--target-dir', os.path.join(BUILD, 'mir-%s' % feature), '--', '-Zunpretty=mir'],
+                            '--target-dir', os.path.join(BUILD, 'mir-%s%s' % (feature, TAG)), '--', '-Zunpretty=mir'],
                            cwd=hdir, env=e, stdout=fo, stderr=fe)
     if r.returncode != 0:
         err = open(out + '.err').read()
@@ -77,8 +95,8 @@ class BuildError(Exception):
 
 
 def build_native(feature, release=False):
-    hdir = os.path.join(VERIF, 'harness')
-    tdir = os.path.join(BUILD, 'native-%s' % feature)
+    hdir = HDIR
+    tdir = os.path.join(BUILD, 'native-%s%s' % (feature, TAG))
     cmd = ['cargo', 'build', '--offline', '--features', 'native,' + feature, '--bin', 'replay', '--target-dir', tdir]
     if release:
         cmd.append('--release')
@@ -147,7 +165,7 @@ def run_native(binary, harness, vectors):
     return runs
 
 
-def same_leaf(a, b, exact):
+def same_leaf(a, b, exact, tol=1e-9):
     if isinstance(a, bool) or isinstance(b, bool):
         return bool(a) == bool(b)
     if isinstance(a, int) and isinstance(b, int):
@@ -158,7 +176,7 @@ def same_leaf(a, b, exact):
         return True
     if exact:
         return struct.pack('<d', a) == struct.pack('<d', b) or a == b
-    return abs(a - b) <= 1e-9 * max(1.0, abs(a), abs(b))
+    return abs(a - b) <= tol * max(1.0, abs(a), abs(b))
 
 
 def close(a, b, tol=1e-6):
@@ -329,7 +347,8 @@ class Check:
 
     # ---------------- main
     def prepare(s):
-        srcs = sorted(glob.glob(os.path.join(REPO, 'src', '*.rs'))) + [os.path.join(VERIF, 'harness', 'src', 'lib.rs')]
+        sync_scratch_harness()
+        srcs = sorted(glob.glob(os.path.join(REPO, 'src', '*.rs'))) + [os.path.join(HDIR, 'src', 'lib.rs'), os.path.join(HDIR, 'src', 'r32.rs')]
         mir.load_structs(srcs)
         mir._nl.clear()
         mir.CLOSURES.clear()
@@ -339,6 +358,7 @@ class Check:
             r = sh([sys.executable, os.path.join(VERIF, 'tools', 'gen_c17.py'), 'programs', str(s.seed), str(n)])
             if r.returncode != 0:
                 raise BuildError('program generator failed: ' + r.stderr[-2000:])
+            sync_scratch_harness()
         path, dt = dump_mir(s.feature)
         s.dump_s = dt
         s.text = open(path).read()
@@ -805,7 +825,7 @@ class Check:
                 open(os.path.join(BUILD, 'nonrepro-%s-%s-%d.smt2' % (base, re.sub(r'\W', '_', ob['id']), ob['leaf'])), 'w').write(r['script'])
 
     def write_replay(s, h, ob, vec, why, order):
-        d = os.path.join(VERIF, 'evidence', 'replay')
+        d = os.path.join(EVDIR, 'replay')
         os.makedirs(d, exist_ok=True)
         base = h.split('::')[-1]
         fn = os.path.join(d, '%s-%s-%s-%d.json' % (s.prop, base, re.sub(r'[^\w]', '_', ob['id']), ob['leaf']))
@@ -822,7 +842,8 @@ class Check:
         names = debug_names(s.text, h)
         T_save = None
         _, order = sym_inputs(fn, names)
-        rng = random.Random(s.seed * 7919 + hash(h.split('::')[-1]) % 100003)
+        import zlib
+        rng = random.Random(s.seed * 7919 + zlib.crc32(h.split('::')[-1].encode()) % 100003)
         vecs = [rand_inputs(order, rng, o) for _ in range(n)]
         for fixed in o.get('vectors', []):
             vecs.append(list(fixed))
@@ -840,7 +861,9 @@ class Check:
                 raise Inconclusive('%s: concrete run produced %d paths' % (h, len(paths)))
             mine = [e for e in paths[0].events if e[0] != 'END']
             exact = not (set(m.opaque_used) & {'sin', 'cos', 'tan', 'asin', 'acos', 'atan', 'atan2', 'exp', 'ln', 'powf', 'powi', 'hypot'})
-            if not s.same_trace(mine, nat, exact):
+            # f32 instantiation: libm's sinf/cosf/acosf are not the correctly rounded f64 results the executor computes
+            vtol = 1e-5 if (not exact and any(lt == 'f32' for _, lt in order)) else 1e-9
+            if not s.same_trace(mine, nat, exact, vtol):
                 raise Inconclusive('%s: executor (concrete mode) and native build disagree on input %r:\n  executor: %r\n  native:   %r' % (h, vec, mine[:6], nat[:6]))
             for e in nat:
                 if e[0] == 'COVER':
@@ -875,7 +898,7 @@ class Check:
         s.stats['validated'] += ok
         return covered
 
-    def same_trace(s, mine, nat, exact):
+    def same_trace(s, mine, nat, exact, tol=1e-9):
         if len(mine) != len(nat):
             return False
         for a, b in zip(mine, nat):
@@ -885,7 +908,7 @@ class Check:
                 if bool(a[1]) != b[1]:
                     return False
             elif a[0] == 'ASSUMEEQ':
-                if not all(same_leaf(x, y, exact) for x, y in zip(a[1], b[1])) or not all(same_leaf(x, y, exact) for x, y in zip(a[2], b[2])):
+                if not all(same_leaf(x, y, exact, tol) for x, y in zip(a[1], b[1])) or not all(same_leaf(x, y, exact, tol) for x, y in zip(a[2], b[2])):
                     return False
             elif a[0] == 'ASSERT':
                 if a[1] != b[1] or bool(a[2]) != b[2]:
@@ -893,10 +916,10 @@ class Check:
             elif a[0] == 'ASSERTEQ':
                 if a[1] != b[1] or len(a[2]) != len(b[2]):
                     return False
-                if not all(same_leaf(x, y, exact) for x, y in zip(a[2], b[2])) or not all(same_leaf(x, y, exact) for x, y in zip(a[3], b[3])):
+                if not all(same_leaf(x, y, exact, tol) for x, y in zip(a[2], b[2])) or not all(same_leaf(x, y, exact, tol) for x, y in zip(a[3], b[3])):
                     return False
             elif a[0] == 'OUT':
-                if a[1] != b[1] or not all(same_leaf(x, y, exact) for x, y in zip(a[2], b[2])):
+                if a[1] != b[1] or not all(same_leaf(x, y, exact, tol) for x, y in zip(a[2], b[2])):
                     return False
             elif a[0] == 'COVER':
                 if a[1] != b[1]:
@@ -1042,9 +1065,9 @@ class Check:
             ],
             'wall_s': round(wall, 2), 'violations': len(new_viol),
         }
-        os.makedirs(os.path.join(VERIF, 'evidence'), exist_ok=True)
+        os.makedirs(EVDIR, exist_ok=True)
         validate_evidence(ev)
-        json.dump(ev, open(os.path.join(VERIF, 'evidence', '%s.json' % s.prop), 'w'), indent=1, default=str)
+        json.dump(ev, open(os.path.join(EVDIR, '%s.json' % s.prop), 'w'), indent=1, default=str)
         for v, line in s.known:
             rest = re.sub(r'^known:\s*property=\S+\s*', '', line)
             print('KNOWN-FINDING: property=%s %s' % (s.prop, rest))
@@ -1080,7 +1103,7 @@ def validate_evidence(ev):
 def replay_file(prop, path):
     d = json.load(open(path))
     feature = prop.lower()
-    mir.load_structs(sorted(glob.glob(os.path.join(REPO, 'src', '*.rs'))) + [os.path.join(VERIF, 'harness', 'src', 'lib.rs')])
+    mir.load_structs(sorted(glob.glob(os.path.join(REPO, 'src', '*.rs'))) + [os.path.join(HDIR, 'src', 'lib.rs'), os.path.join(HDIR, 'src', 'r32.rs')])
     rc = 0
     for release in (False, True):
         binary = build_native(feature, release)
